@@ -1207,3 +1207,6 @@ func ConstFloat(v ssa.Value) (float64, bool) {
 	}
 	return 0, false
 }
+
+// ExpandBoolPhi lists the atoms deciding an If condition (negations stripped, boolean phis expanded).
+func ExpandBoolPhi(c ssa.Value) []ssa.Value { return expandBoolPhi(c, 0) }
